@@ -320,6 +320,8 @@ def run_timeline(ck):
           "timeline_configs_per_case": 11, "timeline_crashes": 0}
     site_lines, site_expect = [], []
     fail_kinds = {}
+    import collections
+    hist = collections.Counter()
     for (rc, out, err), sh in zip(results, shards):
         st["timeline_skipped_modules"] += out.count("\nskip ") + (1 if out.startswith("skip ") else 0)
         cases = parse_timeline(out)
@@ -346,6 +348,14 @@ def run_timeline(ck):
             st["timeline_clipped_samples"] += s.get("clipped", 0)
             st["timeline_samples_compared"] += s.get("samples", 0)
             st["timeline_loops_seen"] += 1 if s.get("loops", 0) > 0 else 0
+            for cl in c["cfg"]:
+                kv = dict(x.split("=") for x in cl.split()[1:])
+                r = int(kv["rate"])
+                hist["rate_%s" % ("4000-7999" if r < 8000 else "8000-15999" if r < 16000 else "16000-31999" if r < 32000
+                                  else "32000-47999" if r < 48000 else "48000-49170")] += 1
+                hist["fmt_" + kv["fmt"]] += 1
+                hist["interp_" + kv["interp"]] += 1
+                hist["amp_" + kv["amp"]] += 1
             nontrivial = s.get("rowchg", 0) >= 2 and s.get("nonsilent", 0) > 0
             ck.count("tl:%s:%d" % (os.path.basename(c["module"]), c["cseed"]), nontrivial=nontrivial,
                      n=max(1, s.get("frames", 0)) * 11)
@@ -386,6 +396,7 @@ def run_timeline(ck):
         ck.note("site_formats_seen", fmts)
     for k, v in st.items():
         ck.note(k, v)
+    ck.note("timeline_config_histogram", dict(sorted(hist.items())))
     if fail_kinds:
         ck.note("oracle_fail_kinds", fail_kinds)
 
